@@ -321,6 +321,58 @@ def exact_rule(rep, prog, cfg, types):
                       "%s::size_hint ignores the pending error item" % short)
 
 
+SEQ_VIEWS = ("iter", "iter_mut", "into_iter", "deref", "deref_mut", "as_slice", "as_mut_slice", "as_ref", "as_mut", "by_ref", "borrow", "borrow_mut")
+INDEX_CONSUMERS = ("Iterator::nth", "Iterator::nth_back", "Iterator::skip", "Index::index", "IndexMut::index_mut", "<impl [T]>::get", "<impl [T]>::get_mut",
+                   "Vec<T, A>>::remove", "Vec<T, A>>::swap_remove", "<impl [T]>::split_at", "<impl [T]>::split_at_mut")
+
+
+def _seq_base(body, local):
+    from .. import terms
+    t = terms.canon(terms.term_of_local(body, local, depth=12))
+    while isinstance(t, tuple) and t[0] == "call" and t[1] and len(t[2]) >= 1 and t[1].rsplit("::", 1)[-1].split("::<")[0] in SEQ_VIEWS:
+        t = terms.canon(t[2][0])
+    return terms.show(t)
+
+
+def index_domain_rule(rep, prog, cfg, b, what):
+    """An index found by `position` over one sequence selects the element only in that same sequence: the hole-skipping view
+    (`fields()`) and the backing slots (`fields.0`) number their elements differently once a value was taken."""
+    rule = "C19.first-match"
+    from ..inline import inlined, module_private_helpers
+    b2 = inlined(prog, b, module_private_helpers(b), depth=3)
+    fl = Flow(b2)
+    pos = {}
+    for bb, t in b2.calls():
+        if any(n.endswith("Iterator::position") or n.endswith("Iterator::rposition") for n in callee_names(t)) and t["args"]:
+            l = op_local(t["args"][0])
+            pos[bb] = _seq_base(b2, l) if l is not None else "?"
+    agreed = set()
+    if not pos:
+        return b2, agreed
+    n = 0
+    for bb, t in b2.calls():
+        names = callee_names(t)
+        if not any(nm.endswith(c) for nm in names for c in INDEX_CONSUMERS) or len(t["args"]) < 2:
+            continue
+        il = op_local(t["args"][1])
+        if il is None:
+            continue
+        leaves, _ = fl.sources([il], through_call=lambda t2, kind: range(len(t2["args"])))
+        from_pos = sorted(x[1] for x in leaves if x[0] == "call" and x[1] in pos)
+        if not from_pos:
+            continue
+        rl = op_local(t["args"][0])
+        base = _seq_base(b2, rl) if rl is not None else "?"
+        for pb in from_pos:
+            n += 1
+            if pos[pb] == base:
+                agreed.add(bb)
+            rep.check(pos[pb] == base, rule, "%s/%s index used on the sequence it was found in" % (cfg, what), b.loc(b.span),
+                      "%s finds the position of the key in `%s` but uses it to select from `%s`: after a value was taken the two number their "
+                      "elements differently, so another field's value is returned" % (what, pos[pb], base))
+    return b2, agreed
+
+
 def first_match_rule(rep, prog, cfg):
     rule = "C19.first-match"
     F = "mpd_protocol::response::frame::Frame::"
@@ -348,6 +400,7 @@ def first_match_rule(rep, prog, cfg):
                           and n.rsplit("::", 1)[-1].split("::<")[0] not in ("find", "contains")})
         rep.check(not inexact, rule, "%s/Frame::%s compares keys exactly" % (cfg, m), b.loc(b.span),
                   "Frame::%s matches the key through %s: a differently spelled key would be returned (or removed) in place of the one asked for" % (m, inexact))
+        ib, iagreed = index_domain_rule(rep, prog, cfg, b, "Frame::%s" % m)
         if m == "get":
             # the value is removed through the element that matched: Option::take on the closure's own parameter
             # (closure form: the closure's parameter; loop form: the element the forward iterator just yielded, which must
@@ -394,6 +447,15 @@ def first_match_rule(rep, prog, cfg):
                                         la, _ = fl.sources([op_local(a)] if op_local(a) is not None else [], through_call=identity_through, follow_mut=False)
                                         if elem & la:
                                             ok = True
+            # position-then-index form: `let i = slots.iter().position(|f| key matches)?; slots[i].take()` — the element emptied is
+            # selected, in the same sequence, by the index of the first match (index_domain_rule)
+            if not ok and iagreed:
+                fli = Flow(ib)
+                for bb, t in ib.calls():
+                    if "core::option::Option::take" in callee_names(t) and op_local(t["args"][0]) is not None:
+                        lv, _ = fli.sources([op_local(t["args"][0])], through_call=identity_through, follow_mut=False)
+                        if any(x[0] == "call" and x[1] in iagreed for x in lv):
+                            ok = True
             rep.check(ok, rule, cfg + "/Frame::get removes the matched element", b.loc(b.span),
                       "Frame::get does not take the value out of the very element it matched")
     bs = body_by_name(prog, F + "fields_len")
